@@ -151,7 +151,7 @@ PROPS = {
                 'element arriving on the receiver\'s validation queue is compared; handleOfferedContents on streams with other item counts and '
                 'truncated streams; non-trivial = at least one key / one accepted item; distinct = distinct lines',
         'trusted': ['utp-go stream; go-bitfield and fastssz codecs of ACCEPT (C14); semaphore for slots'],
-        'assumptions': ['one offer at a time per receiver in this check (overlapping offers of the same key: see DESIGN, schedule-level finding)'],
+        'assumptions': ['overlapping offers are exercised back to back (second offer right behind the first reply), not truly in parallel'],
         'explanation': 'theorems verdict_count, accepted_only_if, connid_iff, pairing (+ codec round trips), count_mismatch_dropped; step equality of the '
                        'decoded ACCEPT; the same clauses as monitors on the real reply; queue contents of real transfers',
     },
